@@ -226,7 +226,7 @@ def hex_cases(draw):
     elif bad == 'x':
         text = '0x90 0x01 0x02'
         seq = None
-    elif bad == 'split' and len(text) > 2:
+    elif bad == 'split' and len(text.strip()) >= 2:
         # whitespace inside a pair: "9 0" is not two-digit hex
         text = text.strip()
         text = text[0] + ' ' + text[1:]
